@@ -365,6 +365,53 @@ func (c *Ctx) parseCalls(p *packages.Package, fd *ast.FuncDecl) map[types.Object
 func (c *Ctx) encodeWidths(p *packages.Package) map[types.Object]int64 {
 	info := p.TypesInfo
 	res := map[types.Object]int64{}
+	declOf := map[*types.Func]*ast.FuncDecl{}
+	for _, f := range p.Syntax {
+		for _, d := range f.Decls {
+			if fd, ok := d.(*ast.FuncDecl); ok && fd.Body != nil {
+				if o, _ := info.Defs[fd.Name].(*types.Func); o != nil {
+					declOf[o] = fd
+				}
+			}
+		}
+	}
+	// returnedWidth: the length of the byte slice every return of body yields:
+	// a composite literal, a whole fixed-size array sliced, or the result of a
+	// package function for which the same holds (an encoder moved into a helper).
+	var returnedWidth func(body *ast.BlockStmt, depth int) (int64, bool)
+	returnedWidth = func(body *ast.BlockStmt, depth int) (int64, bool) {
+		width, found, consistent := int64(0), false, true
+		ast.Inspect(body, func(n ast.Node) bool {
+			if _, isLit := n.(*ast.FuncLit); isLit {
+				return false
+			}
+			ret, ok := n.(*ast.ReturnStmt)
+			if !ok || len(ret.Results) != 1 {
+				return true
+			}
+			w, okW := int64(0), false
+			switch x := ast.Unparen(ret.Results[0]).(type) {
+			case *ast.CompositeLit:
+				w, okW = int64(len(x.Elts)), true
+			case *ast.SliceExpr:
+				if at, ok := info.TypeOf(x.X).Underlying().(*types.Array); ok && x.Low == nil && x.High == nil {
+					w, okW = at.Len(), true
+				}
+			case *ast.CallExpr:
+				if fn := calleeFunc(info, x); fn != nil && depth < 3 {
+					if hd := declOf[fn]; hd != nil {
+						w, okW = returnedWidth(hd.Body, depth+1)
+					}
+				}
+			}
+			if !okW || (found && w != width) {
+				consistent = false
+			}
+			width, found = w, true
+			return true
+		})
+		return width, found && consistent
+	}
 	for _, f := range p.Syntax {
 		for _, d := range f.Decls {
 			fd, ok := d.(*ast.FuncDecl)
@@ -376,21 +423,9 @@ func (c *Ctx) encodeWidths(p *packages.Package) map[types.Object]int64 {
 			if !ok {
 				continue
 			}
-			ast.Inspect(fd.Body, func(n ast.Node) bool {
-				ret, ok := n.(*ast.ReturnStmt)
-				if !ok || len(ret.Results) != 1 {
-					return true
-				}
-				switch x := ast.Unparen(ret.Results[0]).(type) {
-				case *ast.CompositeLit:
-					res[nt.Obj()] = int64(len(x.Elts))
-				case *ast.SliceExpr:
-					if at, ok := info.TypeOf(x.X).Underlying().(*types.Array); ok && x.Low == nil && x.High == nil {
-						res[nt.Obj()] = at.Len()
-					}
-				}
-				return true
-			})
+			if w, ok := returnedWidth(fd.Body, 0); ok {
+				res[nt.Obj()] = w
+			}
 		}
 	}
 	return res
